@@ -396,6 +396,7 @@ ChildPlan World::OnSpawn(Kernel& kk, const std::string& cmd, bool console) {
     if (none) return;
     // a manifest generator replaces build.ninja atomically or not at all
     if (sv.regen && (partial || status != 0)) return;
+    bool backdate = self->prof->backdating_cmds && !restat && !sv.generator && !sv.regen && Hash64(&myseq, sizeof myseq, (uint64_t)sv.id * 5 + 2) % 3 == 0;
     // (compilers differ in whether the dependency file or the object is written last)
     bool depfile_first = Hash64(&myseq, sizeof myseq, (uint64_t)sv.id * 3 + 1) % 2 == 0;
     auto write_depfile = [&]() {
@@ -449,7 +450,16 @@ ChildPlan World::OnSpawn(Kernel& kk, const std::string& cmd, bool console) {
       // a restat command (by its rule or by its dyndep file) leaves an unchanged output alone
       if (restat && exists && have == content && status == 0 && !partial) { self->stats->n["restat_untouched"]++; if (sv.regen && outs[i] == "build.ninja") self->stats->n["regen_left_build_ninja_alone"]++; continue; }
       k2.MkdirP(Dirname(outs[i]).empty() ? "/w" : Dirname(outs[i]));
+      int64_t prev_mtime = exists ? k2.Mtime(outs[i]) : 0;
       k2.WriteFile(outs[i], content);
+      // a command that keeps time stamps (cp -p, install -p, tar x): the output gets the time of the newest
+      // file the command read - earlier than the command's own start, but never earlier than the output's
+      // previous time (time stamps do not go backwards)
+      if (backdate && !(d && d->producer == sv.id)) {
+        int64_t newest = 0;
+        for (auto& kvp : snap) newest = std::max(newest, k2.Mtime(kvp.first));
+        if (newest > prev_mtime) if (Inode* ino = k2.fs.Find(k2.Abs(outs[i]))) { ino->mtime = newest; self->stats->n["output_backdated"]++; }
+      }
       k2.Trace(Ev::kChildEffect, c.pid, sv.id, outs[i]);
     }
     if (!depfile_first) write_depfile();
